@@ -305,11 +305,16 @@ class CheckMarkers(FuncRule):
                 markers = set()
             if markers is None:  # this is needed to fix coverage quirks
                 continue
-            yield from self.get_undeclared(func=func, markers=markers)
+            yield from self.get_undeclared(func=func, markers=markers, stubs=stubs)
             return
 
     @classmethod
-    def get_undeclared(cls, func: Func, markers: set[str]) -> Iterator[Error]:
+    def get_undeclared(
+        cls,
+        func: Func,
+        markers: set[str],
+        stubs: StubsManager | None = None,
+    ) -> Iterator[Error]:
         has = HasPatcher(markers)
         # function without IO must return something
         if not has.has_io and not func.has_self and not has_returns(body=func.body):
@@ -321,7 +326,7 @@ class CheckMarkers(FuncRule):
                 col=func.col,
             )
 
-        for token in get_markers(body=func.body):
+        for token in get_markers(body=func.body, stubs=stubs):
             assert token.marker
             has_marker = getattr(has, f'has_{token.marker}', None)
             if has_marker is None:
